@@ -206,9 +206,9 @@ structure Inv (I0 t0 limit tmin tmax : Nat) (clk : Nat → Nat) (n : Nat) (s : S
           (s.intervalInstr * tmin ≤ min (limit / 10) (t0 + limit - s.lastCheck) + tmin ∧
             s.lastCheck < t0 + limit)
 
-theorem inv_init (F : TOps) (rate : UInt64) (limit t0 tmin tmax : Nat) (clk : Nat → Nat)
+theorem inv_init (F : TOps) (rate cap : UInt64) (limit t0 tmin tmax : Nat) (clk : Nat → Nat)
     (hc : Costs clk t0 tmin tmax) :
-    Inv (new F rate limit t0).intervalInstr t0 limit tmin tmax clk 0 (new F rate limit t0) := by
+    Inv (new F rate cap limit t0).intervalInstr t0 limit tmin tmax clk 0 (new F rate cap limit t0) := by
   refine ⟨rfl, rfl, by simp [new], ?_, ?_, Or.inl ⟨rfl, rfl⟩⟩
   · simp [new]; exact hc.first_hi
   · simp [new]; exact hc.first_lo
@@ -251,16 +251,16 @@ theorem inv_step (F : TOps) (I0 t0 limit tmin tmax : Nat) (clk : Nat → Nat)
       exact adapt_bound s.intervalInstr (nextInterval F s (clk n)) (clk n - s.lastCheck)
         (min (limit / 10) (t0 + limit - clk n)) tmin (by omega) hsound
 
-theorem inv_run (F : TOps) (rate : UInt64) (limit t0 tmin tmax : Nat) (clk : Nat → Nat)
+theorem inv_run (F : TOps) (rate cap : UInt64) (limit t0 tmin tmax : Nat) (clk : Nat → Nat)
     (hc : Costs clk t0 tmin tmax)
-    (hs : ∀ j, pollAt F clk (new F rate limit t0) j = .ok →
-      UpdateSound F (runN F clk j (new F rate limit t0) 0) (clk j)) :
-    ∀ n, (∀ j, j < n → pollAt F clk (new F rate limit t0) j ≠ .timeout) →
-      Inv (new F rate limit t0).intervalInstr t0 limit tmin tmax clk n
-        (runN F clk n (new F rate limit t0) 0) := by
+    (hs : ∀ j, pollAt F clk (new F rate cap limit t0) j = .ok →
+      UpdateSound F (runN F clk j (new F rate cap limit t0) 0) (clk j)) :
+    ∀ n, (∀ j, j < n → pollAt F clk (new F rate cap limit t0) j ≠ .timeout) →
+      Inv (new F rate cap limit t0).intervalInstr t0 limit tmin tmax clk n
+        (runN F clk n (new F rate cap limit t0) 0) := by
   intro n
   induction n with
-  | zero => intro _; exact inv_init F rate limit t0 tmin tmax clk hc
+  | zero => intro _; exact inv_init F rate cap limit t0 tmin tmax clk hc
   | succ n ih =>
     intro hnt
     have ihn := ih (fun j hj => hnt j (by omega))
